@@ -4,7 +4,7 @@
 From Coq Require Import List NArith Arith Bool.
 Import ListNotations.
 From Mos Require Import model.SymGraph model.Analysis model.Rename spec.NavSpec spec.RenameSpec
-  proofs.SymGraphProofs proofs.NavProofs proofs.RenameProofs.
+  proofs.SymGraphProofs proofs.NavProofs proofs.GreedyProofs proofs.RenameProofs.
 
 (* The table after `rename` is the table before with relabelled edges: same edges, same order, same endpoints; the
    label differs exactly on the edges parent -> symbol. *)
@@ -75,6 +75,19 @@ Theorem C15_edit_text_is_new_name : forall fuel g slice nx d new g' edits,
   forall e, In e edits -> ed_text e = [new].
 Proof. exact edit_text_guarded. Qed.
 Print Assumptions C15_edit_text_is_new_name.
+
+(* Known finding shared with C16 (Known_greedy_untaken_definition).  foo: nop / { .if 0 { foo: nop } / lda foo }:
+   on the analysed table the pass records `lda foo` as a usage of the untaken foo, so the rename of the outer foo
+   edits the definition only; on the build's table the same request also edits `lda foo`.  Outside the class the
+   lookups of the analysed run are the build's (C16_greedy_agrees_with_build), hence so are the recorded usages. *)
+Theorem C15_greedy_untaken_definition_refuted :
+  exists a a_b g1 g2,
+    run_pass 5 [] gr_analysed_events = Some a /\ run_pass 5 [] gr_build_events = Some a_b /\
+    rename_handler 5 gw_table a gr_slice 0 0 0 gr_zz = RenEdits g1 [mkEdit gr_outer [gr_zz]] /\
+    rename_handler 5 (without gw_extra gw_table) a_b gr_slice 0 0 0 gr_zz =
+      RenEdits g2 [mkEdit gr_outer [gr_zz]; mkEdit gr_occ [gr_zz]].
+Proof. exact greedy_rename_refuted. Qed.
+Print Assumptions C15_greedy_untaken_definition_refuted.
 
 (* the witness is inside the class, a plain program outside (non-vacuity of the guard) *)
 Example C15_witness_in_class :
